@@ -86,7 +86,7 @@ CLAIMS = {
         'text': 'Decides the pairing structure of ModbusTransactionManager.execute: under which key the received message is filed '
                 '(its own id vs. a key forced from the request), whether reply transaction id / function code are ever compared '
                 'with the request, that the unit filter is request.unit_id, that the framed bytes are those received in this call, '
-                'that no reachable fallback fetches under a foreign key, that a fresh id is allocated and stale framer bytes are cleared before transmitting; a TCP read of unknown size ends only on its deadline; a first read that is not exactly min_size long raises (so the connection is closed). Two genuine defects are listed as known findings.',
+                'that no reachable fallback fetches under a foreign key, that a fresh id is allocated and stale framer bytes are cleared before transmitting; a TCP read of unknown size ends only on its deadline; a first read that is not exactly min_size long raises (so the connection is closed); the bytes sent are buildPacket(request) of the same call; the TCP read returns only bytes received in that call. Two genuine defects are listed as known findings.',
         'note': 'Structural necessary conditions; reply contents and connection histories are not explored.',
         'technique': 'key-provenance / must-compare rule over region-scoped path enumeration (static)',
     },
@@ -129,7 +129,7 @@ CLAIMS = {
                 'exhaustiveness / injectivity / subclassing; the writer summary of every encode() (field order, widths, endianness, '
                 'byte-count expressions, bit lists through pack_bitstring, repeats) is compared with a spec-derived layout table; the '
                 'reader summary of every decode() (offset, width, target attribute, loop start/stride/iteration count) is compared '
-                'with the same table; dispatch dataflow of both _helper functions, including that a sub-function / MEI-type class looked up in a table is tested against None and not for truthiness (sub-function 0 is valid). Message constructors must not store a mutable default argument and must keep a 0 argument of an integer field; decoder.register() must not replace an existing sub-function table. Five genuine defects are known findings.',
+                'with the same table; dispatch dataflow of both _helper functions, including that a sub-function / MEI-type class looked up in a table is tested against None and not for truthiness (sub-function 0 is valid). Message constructors must not store a mutable default argument and must keep a 0 argument of an integer field; decoder.register() must not replace an existing sub-function table; the bit-list helpers are undecorated and return freshly built lists. Five genuine defects are known findings.',
         'note': 'pack_bitstring/unpack_bitstring arithmetic and struct are trusted; value ranges are not decided. The MEI object list is decided by C20.',
         'technique': 'abstract interpretation to wire-layout summaries compared with frozen spec tables; constant folding of decoder tables (static)',
     },
